@@ -360,8 +360,10 @@ Big5Diff(enc, dec) ==
 \* Design invariants (checked by MC_Cmap on every generated table).
 \* 1. enumeration and single lookups agree; codes that are not listed are unmapped
 EnumerateEqualsLookups(t, probes) ==
-  /\ \A m \in Mappings(t) : Map(t, m[1]) = m[2]
-  /\ \A c \in probes : c \notin Covered(t) => Map(t, c) = 0
+  LET Cv == Covered(t)  M == Mappings(t) IN
+  /\ \A m \in M : m[1] \in Cv /\ Map(t, m[1]) = m[2]
+  /\ \A c \in probes : c \notin Cv => Map(t, c) = 0
+  /\ \A c \in probes : Map(t, c) \notin {0, BAD} => <<c, Map(t, c)>> \in M
 \* 2. binary search = the first containing segment / group, given sorted tables
 SearchIsLinear(t, probes) ==
   /\ t.fmt = 4  => (Sorted4(t.segs) => \A c \in probes : Map4(t, c) = Map4Lin(t, c))
